@@ -4,7 +4,7 @@
 Require Extraction.
 Require Import ExtrOcamlBasic.
 From Coq Require Import String List.
-From ClasticV Require Import Base.Sx Model.Stats Model.ChainIO Model.DispatchIO Model.MatchIO Model.WorldIO Model.StaticIO Model.MwIO Model.CookieIO Model.ErrorsIO Model.FlawIO Model.RenderIO Model.MetaIO Model.WsgiIO.
+From ClasticV Require Import Base.Sx Model.Stats Model.ChainIO Model.DispatchIO Model.DispatchMatchIO Model.MatchIO Model.WorldIO Model.StaticIO Model.MwIO Model.CookieIO Model.ErrorsIO Model.FlawIO Model.RenderIO Model.MetaIO Model.WsgiIO.
 Local Open Scope string_scope.
 
 Definition dispatch (tag : string) (s : sexp) : sexp :=
@@ -19,6 +19,7 @@ Definition dispatch (tag : string) (s : sexp) : sexp :=
   else if String.eqb tag "worldlab" then run_worldlab s
   else if String.eqb tag "staticlab" then run_staticlab s
   else if String.eqb tag "gziplab" then run_gziplab s
+  else if String.eqb tag "dispatchfull" then run_dispatchfull s
   else if String.eqb tag "cookielab" then run_cookielab s
   else if String.eqb tag "cookiehist" then run_cookiehist s
   else if String.eqb tag "errorlab" then run_errorlab s
